@@ -209,3 +209,13 @@ func LoopPhi(xs []int) int {
 	}
 	return acc
 }
+
+// ---- calls through interfaces ----------------------------------------------------------------
+
+type sink interface{ Put(k string) }
+
+type memSink struct{ m map[string]bool }
+
+func (s *memSink) Put(k string) { s.m[k] = true }
+
+func ViaInterface(s sink, k string) { s.Put(k) }
